@@ -161,9 +161,19 @@ fn run_ops(dec: Dec, opts: &RunOpts, slot: u64, nbatches: usize) -> RunOut {
     sched::with_installed(&mut sim, || {
         let r = std::panic::catch_unwind(std::panic::AssertUnwindSafe(|| -> Option<Violation> {
             let s = sched::sim().unwrap();
-            let mut ring = match setup_io_uring(entries, IoUringParamFlags::empty(), 0, 0) {
+            // set-up flag combinations the running kernel accepts (big SQEs / CQEs change the slot stride)
+            let flags = match s.dec.choose(K::Cfg, 4) {
+                0 => IoUringParamFlags::empty(),
+                1 => IoUringParamFlags::IORING_SETUP_SQE128,
+                2 => IoUringParamFlags::IORING_SETUP_CQE32,
+                _ => IoUringParamFlags::IORING_SETUP_SQE128 | IoUringParamFlags::IORING_SETUP_CQE32,
+            };
+            let mut ring = match setup_io_uring(entries, flags, 0, 0) {
                 Ok(r) => r,
-                Err(e) => return Some(Violation { sig: "ops|setup-failed".into(), detail: format!("{e:?}") }),
+                Err(_) => match setup_io_uring(entries, IoUringParamFlags::empty(), 0, 0) {
+                    Ok(r) => r,
+                    Err(e) => return Some(Violation { sig: "ops|setup-failed".into(), detail: format!("{e:?}") }),
+                },
             };
             let dfa = rusl::unistd::open(&UnixString::try_from_string(da.clone()).unwrap(), OpenFlags::O_RDONLY | OpenFlags::O_DIRECTORY).unwrap();
             let dfb = rusl::unistd::open(&UnixString::try_from_string(db.clone()).unwrap(), OpenFlags::O_RDONLY | OpenFlags::O_DIRECTORY).unwrap();
